@@ -84,3 +84,102 @@ pub broadcast proof fn axiom_clone_is_copy_u8() ensures #[trigger] clone_is_copy
 pub assume_specification<T> [<[T]>::to_vec] (s: &[T]) -> (r: std::vec::Vec<T>)
     where T: std::clone::Clone,
     ensures clone_is_copy::<T>() ==> r@ == s@;
+// Vec::extend appends every item the argument yields, in order. items_of(i) = those items (by value).
+pub uninterp spec fn items_of<I, T>(i: I) -> Seq<T>;
+#[verifier::external_body]
+pub broadcast proof fn axiom_items_of_slice(s: &[u8]) ensures #[trigger] items_of::<&[u8], u8>(s) == s@ {}        // slice::Iter
+#[verifier::external_body]
+pub broadcast proof fn axiom_items_of_vec(s: Vec<u8>) ensures #[trigger] items_of::<Vec<u8>, u8>(s) == s@ {}        // vec::IntoIter
+#[verifier::external_body]
+pub broadcast proof fn axiom_items_of_bytes(s: hyper::body::Bytes) ensures #[trigger] items_of::<hyper::body::Bytes, u8>(s) == bytes_view(s) {}   // bytes::buf::IntoIter<Bytes>
+pub broadcast group group_items_of { axiom_items_of_slice, axiom_items_of_vec, axiom_items_of_bytes }
+pub assume_specification<'a, T, A, I> [<std::vec::Vec<T, A> as std::iter::Extend<&'a T>>::extend] (v: &mut std::vec::Vec<T, A>, i: I)
+    where A: std::alloc::Allocator, I: std::iter::IntoIterator<Item = &'a T>, T: std::marker::Copy + 'a,
+    ensures final(v)@ == old(v)@ + items_of::<I, T>(i);
+pub assume_specification<T, A, I> [<std::vec::Vec<T, A> as std::iter::Extend<T>>::extend] (v: &mut std::vec::Vec<T, A>, i: I)
+    where A: std::alloc::Allocator, I: std::iter::IntoIterator<Item = T>,
+    ensures final(v)@ == old(v)@ + items_of::<I, T>(i);
+
+// ---- http header names / values ----
+// HeaderName: "represents an HTTP header field name ... normalized to lower case": lower-case ASCII
+#[verifier::external_body]
+pub broadcast proof fn axiom_header_name_is_ascii_lower(k: http::header::HeaderName) ensures is_ascii_lower(#[trigger] hn_view(k)) {}
+// Display for HeaderName writes the (lower-case) name
+#[verifier::external_body]
+pub broadcast proof fn axiom_to_string_header_name(t: &http::header::HeaderName, s: String)
+    ensures #[trigger] vstd::string::to_string_from_display_ensures::<http::header::HeaderName>(t, s) <==> s@ == hn_view(*t) {}
+// str::to_lowercase of ASCII text is the ASCII lower-casing
+#[verifier::external_body]
+pub broadcast proof fn axiom_lower_ascii(s: Seq<char>)
+    requires forall|i: int| 0 <= i < s.len() ==> (#[trigger] s[i] as u32) < 128,
+    ensures #[trigger] lower(s) == ascii_lower(s) {}
+// HeaderValue::to_str: "Yields a &str slice if the HeaderValue only contains visible ASCII chars" (else Err)
+pub uninterp spec fn hv_visible_ascii(v: http::header::HeaderValue) -> bool;
+#[verifier::external_type_specification] #[verifier::external_body]
+pub struct ExToStrError(http::header::ToStrError);
+pub assume_specification [http::header::HeaderValue::to_str] (v: &http::header::HeaderValue) -> (r: std::result::Result<&str, http::header::ToStrError>)
+    ensures r is Ok <==> hv_visible_ascii(*v), r matches Ok(s) ==> s@ == hv_view(*v);
+pub assume_specification [str::trim] (s: &str) -> (r: &str)
+    ensures r@ == trim(s@);
+pub assume_specification [str::eq_ignore_ascii_case] (a: &str, b: &str) -> (r: bool)
+    ensures r == (ascii_lower(a@) == ascii_lower(b@));
+
+// ---- E11 transparent iterator newtypes ----
+#[verifier::external_body]
+pub struct VxHdrIter<'a>(http::header::Iter<'a, http::header::HeaderValue>);
+pub uninterp spec fn vx_hdr_remaining<'a>(it: &VxHdrIter<'a>) -> Seq<(&'a http::header::HeaderName, &'a http::header::HeaderValue)>;
+impl<'a> VxHdrIter<'a> {
+    // delegates to http::header::Iter::next; contract = Iterator::next on the remaining items
+    #[verifier::external_body]
+    pub fn next(&mut self) -> (r: Option<(&'a http::header::HeaderName, &'a http::header::HeaderValue)>)
+        ensures
+            vx_hdr_remaining(old(self)).len() == 0 ==> r is None && vx_hdr_remaining(final(self)) == vx_hdr_remaining(old(self)),
+            vx_hdr_remaining(old(self)).len() > 0 ==> r == Some(vx_hdr_remaining(old(self))[0]) && vx_hdr_remaining(final(self)) == vx_hdr_remaining(old(self)).drop_first(),
+    { self.0.next() }
+}
+impl<'a> Iterator for VxHdrIter<'a> {
+    type Item = (&'a http::header::HeaderName, &'a http::header::HeaderValue);
+    #[verifier::external_body]
+    fn next(&mut self) -> (r: Option<(&'a http::header::HeaderName, &'a http::header::HeaderValue)>) { self.0.next() }
+}
+pub open spec fn hdr_pairs<'a>(s: Seq<(&'a http::header::HeaderName, &'a http::header::HeaderValue)>) -> Seq<(Seq<char>, http::header::HeaderValue)> {
+    Seq::new(s.len(), |i: int| (hn_view(*s[i].0), *s[i].1))
+}
+#[verifier::external_body]
+pub struct VxSortedKeys<'a>(std::vec::IntoIter<&'a String>);
+pub uninterp spec fn vx_keys_remaining<'a>(it: &VxSortedKeys<'a>) -> Seq<&'a String>;
+impl<'a> VxSortedKeys<'a> {
+    // delegates to vec::IntoIter::next
+    #[verifier::external_body]
+    pub fn next(&mut self) -> (r: Option<&'a String>)
+        ensures
+            vx_keys_remaining(old(self)).len() == 0 ==> r is None && vx_keys_remaining(final(self)) == vx_keys_remaining(old(self)),
+            vx_keys_remaining(old(self)).len() > 0 ==> r == Some(vx_keys_remaining(old(self))[0]) && vx_keys_remaining(final(self)) == vx_keys_remaining(old(self)).drop_first(),
+    { self.0.next() }
+}
+impl<'a> Iterator for VxSortedKeys<'a> {
+    type Item = &'a String;
+    #[verifier::external_body]
+    fn next(&mut self) -> (r: Option<&'a String>) { self.0.next() }
+}
+pub open spec fn key_views<'a>(s: Seq<&'a String>) -> Seq<Seq<char>> { Seq::new(s.len(), |i: int| s[i]@) }
+// the order in which HeaderMap::iter() / `keys().sorted()` yield (a function of the map; unconstrained beyond the stubs' contracts)
+pub uninterp spec fn hdr_iter_pairs(h: http::HeaderMap) -> Seq<(http::header::HeaderName, http::header::HeaderValue)>;
+pub open spec fn hdr_iter_views(h: http::HeaderMap) -> Seq<(Seq<char>, http::header::HeaderValue)> {
+    Seq::new(hdr_iter_pairs(h).len(), |i: int| (hn_view(hdr_iter_pairs(h)[i].0), hdr_iter_pairs(h)[i].1))
+}
+pub uninterp spec fn sorted_keys_of<V>(m: Map<String, V>) -> Seq<String>;
+pub open spec fn string_views(s: Seq<String>) -> Seq<Seq<char>> { Seq::new(s.len(), |i: int| s[i]@) }
+// every character sequence is the content of some String
+pub uninterp spec fn string_of(s: Seq<char>) -> String;
+#[verifier::external_body]
+pub broadcast proof fn axiom_string_of(s: Seq<char>) ensures (#[trigger] string_of(s))@ == s {}
+proof fn lits_auth()
+    ensures crate::common::constants::AUTHORIZATION_HEADER@ == AUTH_H(), is_ascii_lower(AUTH_H()), ascii_lower(AUTH_H()) == AUTH_H(), lower(AUTH_H()) == AUTH_H(),
+{
+    reveal_strlit("x-ms-azure-host-authorization");
+    assert(AUTH_H().len() == 29);
+    assert(is_ascii_lower(AUTH_H()));
+    lemma_ascii_lower_id(AUTH_H());
+    axiom_lower_ascii(AUTH_H());
+}
